@@ -277,7 +277,7 @@ example : req ∈ (summ svc.stmts).schemas ∧ resp ∈ (summ svc.stmts).schemas
   ⟨by decide, by decide, (C05.iff svc).mp (by decide)⟩
 
 /-- **End to end**: in every accepted definition, for every schema (request / response / message) whose references are
-    interpreted faithfully and whose variable-length capacities and variant count fit 64 bits, the translated sealed
+    interpreted faithfully and whose variant count fits 64 bits, the translated sealed
     composite is one the layout constructors accept, and the schema is either `@sealed` or carries an extent that is a
     whole number of bytes and is not below ANY serialized length the Specification (C02) gives that composite. -/
 theorem C05.accepted_extent_covers_layout (d : Defn) (ha : accept d = .ok) (ρ : CompInfo → Layout.Ty) (sc : RSchema)
@@ -306,25 +306,41 @@ example : (summ svc.stmts).schemas = [req, resp] ∧ accept svc = .ok ∧
       simpa [e] using ht
     rcases this with rfl | rfl
     · trivial
-    · exact ⟨Rules.standIn_faithful _ (by decide), by decide⟩
+    · exact Rules.standIn_faithful _ (by decide)
   · intro t ht
     have : t = .scalar (.void 3) ∨ t = .varArr .utf8 9 := by
       have e : resp.fieldTys = [.scalar (.void 3), .varArr .utf8 9] := by decide
       simpa [e] using ht
     rcases this with rfl | rfl
     · trivial
-    · exact ⟨trivial, by decide⟩
+    · trivial
 
-/-- GAP OF THE RULES MODEL (not of pydsdl): `Ty.ctorOk` only demands capacity ≥ 1, so the model accepts a
-    variable-length array whose capacity needs more than 64 bits, while the layout model (and the real library:
-    `UnsignedIntegerType(128)` → `InvalidBitLengthError`, an `InvalidDefinitionError`) rejects it.  This is why the bridge
-    carries the hypothesis `cap < 2 ^ 64`. -/
-theorem C05.model_gap_varArr_capacity :
-    accept ⟨⟨["vendor"], "A", 1, 0, none, false⟩, [.field (.varArr (.uint 8 .saturated) (2 ^ 64)) "a", .sealed]⟩ = .ok ∧
+/-- The capacity of a variable-length array has to fit the widest length prefix: the rules model (`Ty.ctorOk`, like the
+    real library: `UnsignedIntegerType(128)` → `InvalidBitLengthError`, an `InvalidDefinitionError`) accepts it exactly when
+    the element type is legal and `1 ≤ cap < 2 ^ 64`; a fixed-length array has no prefix and no upper bound.  (This used to
+    be a gap of the model - `C05.model_gap_varArr_capacity` - and a hypothesis of the layout bridge; both are gone.) -/
+theorem C05.varArr_capacity_rule (e : Scalar) (cap : Int) :
+    ((Ty.varArr e cap).ctorOk = true ↔ WidthOk e ∧ 1 ≤ cap ∧ cap < 2 ^ 64) ∧
+    ((Ty.fixedArr e cap).ctorOk = true ↔ WidthOk e ∧ 1 ≤ cap) :=
+  ⟨Ty.ctorOk_iff (.varArr e cap), Ty.ctorOk_iff (.fixedArr e cap)⟩
+
+/-- … which is exactly when the length prefix `2 ** ceil(log2(max(8, bit_length(cap))))` has a legal unsigned width -/
+theorem C05.varArr_capacity_prefix (cap : Nat) : pow2ceil8 (bitLength cap) ≤ 64 ↔ cap < 2 ^ 64 := by
+  constructor
+  · intro h
+    by_contra hc
+    have := pow2ceil8_bitLength_big cap (by omega)
+    omega
+  · exact pow2ceil8_le cap
+
+/-- both sides of the boundary, in the rules model and in the layout model of C02 -/
+theorem C05.varArr_capacity_boundary :
+    accept ⟨⟨["vendor"], "A", 1, 0, none, false⟩, [.field (.varArr (.uint 8 .saturated) (2 ^ 64)) "a", .sealed]⟩ = .invalid ∧
     (Layout.Ty.varr (.prim 8) (2 ^ 64)).wf = false ∧
     accept ⟨⟨["vendor"], "A", 1, 0, none, false⟩, [.field (.varArr (.uint 8 .saturated) (2 ^ 64 - 1)) "a", .sealed]⟩ = .ok ∧
-    (Layout.Ty.varr (.prim 8) (2 ^ 64 - 1)).wf = true := by
-  refine ⟨by decide, by decide +kernel, by decide, by decide +kernel⟩
+    (Layout.Ty.varr (.prim 8) (2 ^ 64 - 1)).wf = true ∧
+    accept ⟨⟨["vendor"], "A", 1, 0, none, false⟩, [.field (.fixedArr (.uint 8 .saturated) (2 ^ 70)) "a", .sealed]⟩ = .ok := by
+  refine ⟨by decide, by decide +kernel, by decide, by decide +kernel, by decide⟩
 
 /-- … and beyond 128 bits even the prefix widths of the two models differ (both far outside what is accepted) -/
 example : pow2ceil8 (bitLength (2 ^ 128)) = 128 ∧ Layout.stdWidth (2 ^ 128) = 256 := by decide +kernel
